@@ -879,10 +879,24 @@ fn frame_of(body: &[u8]) -> Vec<u8> {
 
 fn gen_payload(r: &mut Rng) -> String {
     let alphabet: Vec<&str> = vec!["a", "Z", "0", " ", "  ", "\u{e9}", "\u{4e16}", "\u{1F600}", "\t", "-", "_", "{", "\"", "\u{7f}", "\u{1}"];
-    let n = r.range(1, 24);
+    // mostly short payloads; one in six is long: its length sits around a power of two (where buffers and
+    // log-truncation limits live) and multi-byte characters straddle every such byte offset, up to the frame limit
     let mut s = String::new();
-    for _ in 0..n {
-        s.push_str(*r.pick(&alphabet[..]));
+    if r.chance(0.17) {
+        let target = *r.pick(&[120u64, 250, 256, 260, 510, 1020, 4090, 16380, 60000]) + r.below(12);
+        let wide = *r.pick(&["\u{e9}", "\u{4e16}", "\u{1F600}"]);
+        while (s.len() as u64) < target {
+            if r.chance(0.3) {
+                s.push_str(wide);
+            } else {
+                s.push_str(*r.pick(&alphabet[..]));
+            }
+        }
+    } else {
+        let n = r.range(1, 24);
+        for _ in 0..n {
+            s.push_str(*r.pick(&alphabet[..]));
+        }
     }
     // the command line's trailing whitespace is not part of the payload
     let t = s.trim_end().to_string();
